@@ -60,6 +60,8 @@
 #include "alloc_model.h"
 #include "rwlock_model.h"
 
+static struct rtr_socket tl_sock[3];
+
 /* ---- C16: "havoc outside the lock" reduction ------------------------------------------------
  * With -DVL_HAVOC the protected fields of the table under test (the two trie roots) hold ARBITRARY
  * values whenever its rwlock is not held and their true values only inside a critical section.
@@ -72,6 +74,14 @@ static bool hv_scrambled;
 static unsigned int hv_unlocked_root_changes; /* roots changed inside a READ section */
 struct trie_node *nondet_trie_node_ptr(void);
 
+/* what an unlocked reader may see instead of the true root: nothing, or a well-formed one-node trie with
+ * arbitrary content (kept well-formed so that a mutant that follows it stays cheap to execute and is
+ * refuted by the functional oracle rather than by an explosion of wild dereferences)
+ */
+static struct trie_node hv_poison4, hv_poison6;
+static struct node_data hv_poison_data;
+static struct data_elem hv_poison_elem;
+
 static void hv_scramble(void)
 {
 #ifdef VL_HAVOC
@@ -79,8 +89,22 @@ static void hv_scramble(void)
 		return;
 	hv_true4 = hv_table->ipv4;
 	hv_true6 = hv_table->ipv6;
-	hv_table->ipv4 = ND_BOOL("havoc.null4") ? NULL : (struct trie_node *)&hv_scrambled;
-	hv_table->ipv6 = ND_BOOL("havoc.null6") ? NULL : (struct trie_node *)&hv_scrambled;
+	hv_poison_elem.asn = ND(uint32_t, "havoc.asn");
+	hv_poison_elem.max_len = ND(uint8_t, "havoc.maxlen");
+	hv_poison_elem.socket = &tl_sock[0];
+	hv_poison_data.len = 1;
+	hv_poison_data.ary = &hv_poison_elem;
+	hv_poison4.prefix.ver = LRTR_IPV4;
+	hv_poison4.prefix.u.addr4.addr = 0;
+	hv_poison4.len = 0;
+	hv_poison4.lchild = hv_poison4.rchild = hv_poison4.parent = NULL;
+	hv_poison4.data = &hv_poison_data;
+	hv_poison6 = hv_poison4;
+	hv_poison6.prefix.ver = LRTR_IPV6;
+	hv_poison6.prefix.u.addr6.addr[0] = hv_poison6.prefix.u.addr6.addr[1] = 0;
+	hv_poison6.prefix.u.addr6.addr[2] = hv_poison6.prefix.u.addr6.addr[3] = 0;
+	hv_table->ipv4 = ND_BOOL("havoc.null4") ? NULL : &hv_poison4;
+	hv_table->ipv6 = ND_BOOL("havoc.null6") ? NULL : &hv_poison6;
 	hv_scrambled = true;
 #endif
 }
@@ -114,7 +138,6 @@ void vl_on_release(pthread_rwlock_t *l, int was_write)
 }
 #endif
 
-static struct rtr_socket tl_sock[3];
 
 static const struct rtr_socket *tl_nd_socket(const char *name)
 {
